@@ -1,7 +1,7 @@
 /-
 A toy instance of `CodecLaws` (Model/Entity.lean): the hypotheses under which C16 is proved are
 satisfiable, and the model can be evaluated by `decide` on it (non-vacuity examples and the
-witness of F62 and the regression `C16_F61_fixed` in Props/C16.lean).
+regressions `C16_F62_fixed` and `C16_F61_fixed` in Props/C16.lean).
 -/
 import Restful.Model.Entity
 namespace Restful
